@@ -45,6 +45,8 @@ pub enum ParamForm {
     TwoSecondSkipped,
     /// <S: BitStore, O: BitOrder>: the parameters are the store and the order of a bit sequence
     BitsSO,
+    /// <T, U, V> (not part of `ALL_PARAM_FORMS`: explored by `three_param_states` only)
+    Three,
 }
 
 #[derive(Clone, Debug, PartialEq, Eq, Hash)]
@@ -67,6 +69,7 @@ pub struct DGeneric {
 fn self_ty(params: ParamForm) -> Ty {
     let n = match params {
         ParamForm::One | ParamForm::ConfigSkipped | ParamForm::ConfigKept => 1,
+        ParamForm::Three => 3,
         _ => 2,
     };
     Ty::Named(G_D, (0..n).map(Ty::Param).collect())
@@ -84,6 +87,25 @@ pub fn generic_field_alphabet(params: ParamForm, include_cf3: bool) -> Vec<Field
             Field::new(Ty::Phantom(b(Ty::Param(0)))),
             Field::new(Ty::Phantom(b(Ty::Param(1)))),
         ];
+    }
+    if params == ParamForm::Three {
+        let (t, u, v) = (Ty::Param(0), Ty::Param(1), Ty::Param(2));
+        return vec![
+            t.clone(),
+            u.clone(),
+            v.clone(),
+            Ty::Tuple(vec![t.clone(), v.clone()]),
+            Ty::Vec(b(u.clone())),
+            U8,
+            Ty::Phantom(b(t.clone())),
+            Ty::Phantom(b(u.clone())),
+            Ty::Phantom(b(v.clone())),
+            Ty::Phantom(b(Ty::Tuple(vec![t.clone(), v.clone()]))),
+            Ty::Phantom(b(Ty::Tuple(vec![u, v]))),
+        ]
+        .into_iter()
+        .map(Field::new)
+        .collect();
     }
     let mut v: Vec<Field> = generic_type_alphabet(params, include_cf3)
         .into_iter()
@@ -176,6 +198,14 @@ pub fn generic_arg_alphabet(params: ParamForm) -> Vec<Vec<Ty>> {
             vec![Ty::Prim(Prim::U32), Ty::Order(false)],
             vec![Ty::Prim(Prim::U8), Ty::Order(true)],
         ],
+        ParamForm::Three => vec![
+            vec![U8, U16, U32],
+            vec![U32, U16, U8],
+            vec![U16, U32, U8],
+            vec![Ty::Named(G_N, vec![]), U16, Ty::Named(G_M, vec![])],
+            vec![U16, Ty::Named(G_M, vec![]), Ty::Named(G_N, vec![])],
+            vec![Ty::Vec(b(U8)), Ty::Named(G_N, vec![]), U16],
+        ],
         ParamForm::One => base.into_iter().map(|x| vec![x]).collect(),
         ParamForm::ConfigSkipped | ParamForm::ConfigKept => [G_CFGA, G_CFGB, G_CFGC]
             .iter()
@@ -192,6 +222,111 @@ pub fn generic_arg_alphabet(params: ParamForm) -> Vec<Vec<Ty>> {
             v
         }
     }
+}
+
+/// A slice of D-generic beyond the quick tier's depth: ONE field (the whole field alphabet), THREE instantiations
+/// in every order out of four arguments, one-parameter form, every body form - what only the third same-path
+/// entry shows (a comparison "against the first" that is not transitive, an index that is right twice).
+pub fn three_inst_slice(include_cf3: bool) -> Vec<GenState> {
+    let args = [U8, U16, Ty::Named(G_N, vec![]), Ty::Vec(b(U8))];
+    let mut out = three_param_states();
+    // the parameter (or the associated type) THREE levels down: under two stacked wrappers without parameters of
+    // their own, under a generic inside a generic - one field, two and three instantiations
+    let t = Ty::Param(0);
+    let deep: Vec<Ty> = vec![
+        Ty::Vec(b(Ty::Vec(b(t.clone())))),
+        Ty::Option(b(Ty::Vec(b(t.clone())))),
+        Ty::Vec(b(Ty::Tuple(vec![t.clone(), Ty::Prim(Prim::Bool)]))),
+        Ty::Named(G_H, vec![Ty::Named(G_H, vec![t.clone()])]),
+        Ty::Array(b(Ty::Array(b(t.clone()), 2)), 3),
+        Ty::Option(b(Ty::Option(b(t.clone())))),
+        Ty::Vec(b(Ty::Option(b(Ty::Named(G_H, vec![t.clone()]))))),
+    ];
+    for form in ALL_BODY_FORMS {
+        for f in &deep {
+            for (i, a) in args.iter().enumerate() {
+                for (j, c) in args.iter().enumerate() {
+                    if i == j {
+                        continue;
+                    }
+                    out.push(GenState {
+                        form,
+                        params: ParamForm::One,
+                        fields: vec![Field::new(f.clone())],
+                        insts: vec![vec![a.clone()], vec![c.clone()]],
+                    });
+                    for (k, e) in args.iter().enumerate() {
+                        if k != i && k != j {
+                            out.push(GenState {
+                                form,
+                                params: ParamForm::One,
+                                fields: vec![Field::new(f.clone())],
+                                insts: vec![vec![a.clone()], vec![c.clone()], vec![e.clone()]],
+                            });
+                        }
+                    }
+                }
+            }
+        }
+        let deep_assoc: Vec<Ty> = vec![
+            Ty::Option(b(Ty::Option(b(Ty::Assoc(0))))),
+            Ty::Vec(b(Ty::Option(b(Ty::Assoc(0))))),
+            Ty::Named(G_H, vec![Ty::Named(G_H, vec![Ty::Assoc(0)])]),
+            Ty::Option(b(Ty::Named(G_H, vec![Ty::Assoc(0)]))),
+        ];
+        for params in [ParamForm::ConfigSkipped, ParamForm::ConfigKept] {
+            for f in &deep_assoc {
+                for x in [G_CFGA, G_CFGB, G_CFGC] {
+                    for y in [G_CFGA, G_CFGB, G_CFGC] {
+                        if x == y {
+                            continue;
+                        }
+                        out.push(GenState {
+                            form,
+                            params,
+                            fields: vec![Field::new(f.clone())],
+                            insts: vec![vec![Ty::Named(x, vec![])], vec![Ty::Named(y, vec![])]],
+                        });
+                    }
+                }
+            }
+        }
+    }
+    for form in ALL_BODY_FORMS {
+        for f in generic_field_alphabet(ParamForm::One, include_cf3) {
+            for (i, a) in args.iter().enumerate() {
+                for (j, c) in args.iter().enumerate() {
+                    for (k, e) in args.iter().enumerate() {
+                        if i == j || j == k || i == k {
+                            continue;
+                        }
+                        out.push(GenState {
+                            form,
+                            params: ParamForm::One,
+                            fields: vec![f.clone()],
+                            insts: vec![vec![a.clone()], vec![c.clone()], vec![e.clone()]],
+                        });
+                    }
+                }
+            }
+        }
+    }
+    out
+}
+
+/// Definitions with THREE parameters (<= 2 fields out of eleven: each parameter, two of them in one tuple, markers for
+/// one and for two of them) and <= 2 of six instantiations whose arguments are numbered in different orders: a
+/// used parameter between two unused ones, a marker that names two parameters, one field using the outer two.
+pub fn three_param_states() -> Vec<GenState> {
+    let d = DGeneric {
+        max_fields: 2,
+        max_insts: 2,
+        include_cf3: false,
+        body_forms: ALL_BODY_FORMS.to_vec(),
+        param_forms: vec![ParamForm::Three],
+    };
+    let (all, _, _) = crate::engine::enumerate(&d, 4, 2_000_000);
+    all.into_iter().map(|(_, s)| s).filter(|s| !s.insts.is_empty() && !s.fields.is_empty()).collect()
 }
 
 pub fn generic_defs() -> Vec<Def> {
@@ -214,6 +349,7 @@ impl GenState {
     pub fn def(&self) -> Def {
         let params: Vec<Param> = match self.params {
             // (not named `T`: the parameters of the helper and prelude types are, and names must not be what identifies a parameter)
+            ParamForm::Three => vec![("T", false), ("U", false), ("V", false)],
             ParamForm::One => vec![("Item", false)],
             ParamForm::Two => vec![("T", false), ("U", false)],
             ParamForm::BitsSO => vec![("S", false), ("O", false)],
